@@ -3,7 +3,7 @@ XML text layer, tier A of C01/C02: the tree type shared by every codec model, th
 functions of Qt 5.15's `QXmlStreamWriter` (all qxmpp text/attribute output goes through it,
 src/base/QXmppUtils.cpp:322-362) and `render`, the writer's output form.
 
-Characters are `Char` (code points); strings are `List Char` in models and proofs (String only
+characters are `Char` (code points); strings are `List Char` in models and proofs (String only
 at driver boundaries).  Namespaces are plain `xmlns` attributes at this layer; `nsOf` resolves
 them the way `QDomElement::namespaceURI()` does for un-prefixed names.
 No proofs here, no Mathlib.
@@ -37,9 +37,19 @@ def escText (s : Str) : Str := s.flatMap (escChar false)
 /-- `writeAttribute`: additionally escapes TAB/LF/CR as character references -/
 def escAttr (s : Str) : Str := s.flatMap (escChar true)
 
+/-- namespace declarations: `xmlns` and `xmlns:prefix` -/
+def isNsDecl (k : Str) : Bool := k = "xmlns".toList || "xmlns:".toList.isPrefixOf k
+
+/-- attributes as qxmpp writes them.  Ordinary attributes go through `writeAttribute` (escaped).
+Namespace declarations go through `writeDefaultNamespace` / `writeNamespace`, and Qt 5.15 writes the
+namespace URI VERBATIM, without any escaping (measured by harness/cxx/xmllayer.cpp: the model's bytes
+are compared with the real writer's).  For the constant `ns_*` URIs this makes no difference; for
+data-valued ones (`QXmppElement::toXml`, Jingle description/transport type) it is the markup
+injection recorded as finding `C01:markup-injection:xmlns`. -/
 def renderAttrs : List (Str × Str) → Str
   | [] => []
-  | (k, v) :: rest => ' ' :: k ++ '=' :: '"' :: escAttr v ++ '"' :: renderAttrs rest
+  | (k, v) :: rest =>
+    ' ' :: k ++ '=' :: '"' :: (if isNsDecl k then v else escAttr v) ++ '"' :: renderAttrs rest
 
 mutual
   /-- the writer's output form: `<n a="v"/>` for childless elements, `<n a="v">…</n>` otherwise -/
